@@ -214,7 +214,15 @@ def bases_upper(rng, tier):
                 for _ in range(r.range(1, 4)):
                     chunks.append(r.choice([chunks[-1], 4097, 5000, 9000, 20000, 70000]))
                 total = sum(chunks) + r.choice([0, 1, 500, 5000])
-                ops.append("nbrv %d %d %s" % (r.below(256), total, " ".join(map(str, chunks))))
+                if r.chance(1, 3):
+                    # a peer that dribbles: a wait is satisfied by several reads, the reader relaunches its read from
+                    # inside the read callback (and that relaunch can be refused)
+                    chunks = [min(c, 9000) for c in chunks]
+                    total = sum(chunks) + r.choice([0, 1, 500])
+                    ops.append("nbrd %d %d %d %s" % (r.below(256), total, max(r.choice([1, 7, 100, 1000, 4000]), max(chunks) // 150 + 1),
+                                                       " ".join(map(str, chunks))))
+                else:
+                    ops.append("nbrv %d %d %s" % (r.below(256), total, " ".join(map(str, chunks))))
             elif k < 84:
                 ops.append("http %d" % r.below(5))
             elif k < 92:
@@ -234,6 +242,9 @@ def bases_upper(rng, tier):
     out.append(["nw 1000000 1000000 3", "end"])
     out.append(["nr 1000000 1000000 4", "end"])
     out.append(["nbrv 5 12000 100 5000 6000", "nbrv 6 30000 1000 9000 20000", "end"])
+    # first thing in a process (the pools are empty): a wait that is satisfied by several reads
+    out.append(["nbrd 7 300 100 10 200 50", "end"])
+    out.append(["nbrd 8 9000 1000 100 5000 3000", "end"])
     return out
 
 
